@@ -1,6 +1,6 @@
 /-
   Version 1 state resolution, part 4: a resolved auth block leaves the resolver state as it found it (its own slot
-  is written and finally cleared), so inside one call of `resolveAndAddAuthBlocks` every block is resolved against
+  is written, cleared, and its previous occupant put back), so inside one call of `resolveAndAddAuthBlocks` every block is resolved against
   the initial state; the winners are registered afterwards.  Hence neither the order of the blocks nor the order of
   the candidates inside a block matters (`blocks_order_irrelevant`).  Core only.
 -/
@@ -47,12 +47,23 @@ theorem go_lookup (valid : Bool) (s : V1State) (r : Event) {rest : List Event} {
 
 /-! ## resolveAuthBlock -/
 
+theorem restorePrev_wf {s : V1State} (hw : s.WF) (prev : Option Event) : (restorePrev prev s).WF := by
+  cases prev with
+  | none => exact hw
+  | some p => exact hw.addAuthEvent p
+
+theorem restorePrev_sim {s s' : V1State} (h : s.Sim s') (prev : Option Event) :
+    (restorePrev prev s).Sim (restorePrev prev s') := by
+  cases prev with
+  | none => exact h
+  | some p => exact h.addAuthEvent p
+
 theorem resolveAuthBlock_wf (sha : ID → Bytes) (valid : Bool) {s : V1State} (hw : s.WF) (evs : List Event) :
     (resolveAuthBlock sha valid s evs).2.WF := by
   rw [resolveAuthBlock_eq]
   split
   · exact hw
-  · exact (go_wf valid (hw.addAuthEvent _) _ _).removeAuthEvent _ _
+  · exact restorePrev_wf ((go_wf valid (hw.addAuthEvent _) _ _).removeAuthEvent _ _) _
 
 /-- against states with equal lookups a block resolves to the same winner and equal lookups -/
 theorem resolveAuthBlock_sim (sha : ID → Bytes) (valid : Bool) {s s' : V1State} (hw : s.WF) (hw' : s'.WF) (h : s.Sim s')
@@ -65,14 +76,14 @@ theorem resolveAuthBlock_sim (sha : ID → Bytes) (valid : Bool) {s s' : V1State
   · rename_i first rest _
     obtain ⟨h1, h2⟩ := go_sim valid (hw.addAuthEvent first) (hw'.addAuthEvent first) (h.addAuthEvent first) first rest
     simp only
-    rw [← h1]
-    exact ⟨rfl, h2.removeAuthEvent _ _⟩
+    rw [← h1, V1State.authEventAt_eq_lookup, V1State.authEventAt_eq_lookup, h]
+    exact ⟨rfl, restorePrev_sim (h2.removeAuthEvent _ _) _⟩
 -- WF: the verdicts are compared through `v1Allowed_congr`.
 
-/-- A resolved block whose slot was empty leaves every lookup as it was. -/
-theorem resolveAuthBlock_restore (sha : ID → Bytes) (valid : Bool) (s : V1State) {evs : List Event} {K : Bytes × Bytes}
-    (hK : ∀ e ∈ evs, keyOf e = K) (hempty : s.lookup K.1 K.2 = none) :
-    (resolveAuthBlock sha valid s evs).2.Sim s := by
+/-- A resolved block leaves every lookup as it was: it writes only the slot of its candidates, and finally puts back
+    what that slot held before. -/
+theorem resolveAuthBlock_restore (sha : ID → Bytes) (valid : Bool) {s : V1State} (hw : s.WF) {evs : List Event}
+    {K : Bytes × Bytes} (hK : ∀ e ∈ evs, keyOf e = K) : (resolveAuthBlock sha valid s evs).2.Sim s := by
   rw [resolveAuthBlock_eq]
   split
   · exact V1State.Sim.refl s
@@ -80,23 +91,55 @@ theorem resolveAuthBlock_restore (sha : ID → Bytes) (valid : Bool) (s : V1Stat
     have hK' : ∀ e ∈ first :: rest, keyOf e = K := fun e he => hK e (mem_sortV1.mp (hs ▸ he))
     have hrest : ∀ e ∈ rest, keyOf e = K := fun e he => hK' e (List.mem_cons_of_mem _ he)
     have hwin : keyOf (resolveAuthBlock.go valid (s.addAuthEvent first) first rest).1 = K := hK' _ (go_mem _ _ _ _)
-    intro t k
-    simp only
-    rw [lookup_removeAuthEvent]
+    have hfirst : (first.type, first.stateKey.getD []) = K := hK' first List.mem_cons_self
     have hwin' : ((resolveAuthBlock.go valid (s.addAuthEvent first) first rest).1.type,
         (resolveAuthBlock.go valid (s.addAuthEvent first) first rest).1.stateKey.getD []) = K := hwin
-    by_cases htk : K = (t, k)
-    · rw [if_pos]
-      · rw [← hempty, htk]
-      · rw [← hwin'] at htk
+    have hprev : s.authEventAt first.type (first.stateKey.getD []) = s.lookup K.1 K.2 := by
+      rw [V1State.authEventAt_eq_lookup, ← hfirst]
+    -- the lookups of the state before the slot is restored
+    have hmid : ∀ t k, ((resolveAuthBlock.go valid (s.addAuthEvent first) first rest).2.removeAuthEvent
+        (resolveAuthBlock.go valid (s.addAuthEvent first) first rest).1.type
+        ((resolveAuthBlock.go valid (s.addAuthEvent first) first rest).1.stateKey.getD [])).lookup t k =
+          if K = (t, k) then none else s.lookup t k := by
+      intro t k
+      rw [lookup_removeAuthEvent]
+      by_cases htk : K = (t, k)
+      · rw [if_pos htk, if_pos]
+        rw [← hwin'] at htk
         simp only [Prod.mk.injEq] at htk
         exact ⟨htk.1.symm, htk.2.symm⟩
-    · rw [if_neg]
-      · rw [go_lookup valid _ first hrest htk]
-        exact lookup_addAuthEvent_ne s first (by rw [hK' first List.mem_cons_self]; exact htk)
-      · rintro ⟨rfl, rfl⟩; exact htk hwin'.symm
--- `hK`: the block only ever writes the slots of its own candidates, and finally clears the slot of the winner;
--- `hempty`: if the slot held an event before, that event is gone afterwards (the slot is cleared, not restored).
+      · rw [if_neg htk, if_neg]
+        · rw [go_lookup valid _ first hrest htk]
+          exact lookup_addAuthEvent_ne s first (by rw [hK' first List.mem_cons_self]; exact htk)
+        · rintro ⟨rfl, rfl⟩; exact htk hwin'.symm
+    intro t k
+    simp only
+    rw [hprev]
+    cases hp : s.lookup K.1 K.2 with
+    | none =>
+      show (V1State.removeAuthEvent _ _ _).lookup t k = _
+      rw [hmid]
+      by_cases htk : K = (t, k)
+      · rw [if_pos htk, ← hp, htk]
+      · rw [if_neg htk]
+    | some p =>
+      have heff := lookup_some_authEff hw hp
+      show (V1State.addAuthEvent _ p).lookup t k = _
+      rw [lookup_addAuthEvent, hmid]
+      by_cases htk : K = (t, k)
+      · have h1 : K.1 = t := by rw [htk]
+        have h2 : K.2 = k := by rw [htk]
+        rw [h1, h2] at heff hp
+        rw [if_pos heff, hp]
+      · rw [if_neg htk, if_neg]
+        intro hh
+        apply htk
+        rw [← (authEff_key hh).2, (authEff_key heff).2]
+-- `hK`: the block only ever writes the slots of its own candidates; the winner's slot is cleared and the previous
+--   occupant of the FIRST candidate's slot is put back — the same slot when all candidates share one.
+-- `hw` (WF): the previous occupant is re-registered with `addAuthEvent`, which files it under its own
+--   (type, state_key); WF says that is the slot it was found in.  No hypothesis on the kind of slot is needed: for a
+--   (type, state_key) the resolver does not keep, add / remove / lookup are all no-ops.
 
 /-- the order of the candidates inside a block is irrelevant -/
 theorem resolveAuthBlock_perm (sha : ID → Bytes) (valid : Bool) (s : V1State) {evs evs' : List Event} (hp : evs ~ evs')
@@ -219,19 +262,19 @@ theorem foldl_add_lookup_some {s : V1State} {l : List Event} {t k : Bytes} {x : 
 
 /-! ## resolveAndAddAuthBlocks: every block is resolved against the initial state -/
 
-/-- every block has a slot of its own kind: all candidates share it, and it is empty in `s` -/
-def BlocksEmpty (s : V1State) (blocks : List (List Event)) : Prop :=
-  ∀ b ∈ blocks, ∃ K : Bytes × Bytes, (∀ e ∈ b, keyOf e = K) ∧ s.lookup K.1 K.2 = none
+/-- the candidates of a block all belong to one slot -/
+def BlocksSlots (blocks : List (List Event)) : Prop :=
+  ∀ b ∈ blocks, ∃ K : Bytes × Bytes, ∀ e ∈ b, keyOf e = K
 
 theorem authBlocksFold (sha : ID → Bytes) (valid : Bool) {s : V1State} (hw : s.WF) {blocks : List (List Event)}
-    (hb : BlocksEmpty s blocks) (acc : V1State × List Event) (haw : acc.1.WF) (has : acc.1.Sim s) :
+    (hb : BlocksSlots blocks) (acc : V1State × List Event) (haw : acc.1.WF) (has : acc.1.Sim s) :
     (blocks.foldl (authBlocksStep sha valid) acc).1.WF ∧ (blocks.foldl (authBlocksStep sha valid) acc).1.Sim s ∧
       (blocks.foldl (authBlocksStep sha valid) acc).2 =
         acc.2 ++ blocks.filterMap (fun b => (resolveAuthBlock sha valid s b).1) := by
   induction blocks generalizing acc with
   | nil => exact ⟨haw, has, by simp⟩
   | cons b bs ih =>
-    have hb' : BlocksEmpty s bs := fun x hx => hb x (List.mem_cons_of_mem _ hx)
+    have hb' : BlocksSlots bs := fun x hx => hb x (List.mem_cons_of_mem _ hx)
     rw [List.foldl_cons, List.filterMap_cons]
     cases b with
     | nil =>
@@ -239,9 +282,9 @@ theorem authBlocksFold (sha : ID → Bytes) (valid : Bool) {s : V1State} (hw : s
       rw [this, resolveAuthBlock_nil]
       exact ih hb' acc haw has
     | cons x xs =>
-      obtain ⟨K, hK, hempty⟩ := hb (x :: xs) List.mem_cons_self
+      obtain ⟨K, hK⟩ := hb (x :: xs) List.mem_cons_self
       obtain ⟨h1, h2⟩ := resolveAuthBlock_sim sha valid haw hw has (x :: xs)
-      have h3 := resolveAuthBlock_restore sha valid s hK hempty
+      have h3 := resolveAuthBlock_restore sha valid hw hK
       have h4 := resolveAuthBlock_wf sha valid haw (x :: xs)
       cases hr : (resolveAuthBlock sha valid s (x :: xs)).1 with
       | none => exact absurd (resolveAuthBlock_none.mp hr) (by simp)
@@ -257,10 +300,10 @@ theorem authBlocksFold (sha : ID → Bytes) (valid : Bool) {s : V1State} (hw : s
         refine ⟨i1, i2, ?_⟩
         rw [i3]; simp
 
-/-- `resolveAndAddAuthBlocks`, when the slots of all blocks are empty beforehand: every block is resolved against the
-    initial state, then the winners are registered. -/
+/-- `resolveAndAddAuthBlocks`: every block is resolved against (a state with the lookups of) the initial state, then the
+    winners are registered. -/
 theorem resolveAndAdd_spec (sha : ID → Bytes) (valid : Bool) {s : V1State} (hw : s.WF) {blocks : List (List Event)}
-    (hb : BlocksEmpty s blocks) :
+    (hb : BlocksSlots blocks) :
     (resolveAndAddAuthBlocks sha valid s blocks).2 = blocks.filterMap (fun b => (resolveAuthBlock sha valid s b).1) ∧
       (resolveAndAddAuthBlocks sha valid s blocks).1.WF ∧
       (resolveAndAddAuthBlocks sha valid s blocks).1.Sim
@@ -270,8 +313,9 @@ theorem resolveAndAdd_spec (sha : ID → Bytes) (valid : Bool) {s : V1State} (hw
   simp only [List.nil_append] at h3
   simp only [h3]
   exact ⟨trivial, foldl_add_wf h1 _, foldl_add_sim_same h2 _⟩
--- `hb`: a block finally clears the slot of its winner; only if that slot was empty is the state afterwards the one
---   before (`resolveAuthBlock_restore`).  `hw`: verdicts against states with equal lookups (`v1Allowed_congr`).
+-- `hb`: a block restores the slot of its first candidate and clears that of its winner: the same slot only if the
+--   candidates share one (`resolveAuthBlock_restore`).  `hw`: verdicts against states with equal lookups
+--   (`v1Allowed_congr`), and re-registering the previous occupant (`lookup_some_authEff`).
 
 /-! ## the order of the blocks and of the candidates inside the blocks is irrelevant -/
 
@@ -283,26 +327,26 @@ theorem eachPerm_filterMap {f f' : List Event → Option Event} {c d : List (Lis
     rw [List.filterMap_cons, List.filterMap_cons, hf _ List.mem_cons_self _ hp,
       ih (fun b hb => hf b (List.mem_cons_of_mem _ hb))]
 
-theorem BlocksEmpty.equiv {s s' : V1State} {blocks blocks' : List (List Event)} (hb : BlocksEmpty s blocks)
-    (hsim : s.Sim s') (heq : SetsEquiv blocks blocks') : BlocksEmpty s' blocks' := by
+theorem BlocksSlots.equiv {blocks blocks' : List (List Event)} (hb : BlocksSlots blocks)
+    (heq : SetsEquiv blocks blocks') : BlocksSlots blocks' := by
   intro b' hb'
   obtain ⟨b, hbm, hss⟩ := heq.sim.2 b' hb'
-  obtain ⟨K, hK, hempty⟩ := hb b hbm
-  exact ⟨K, fun e he => hK e ((hss e).mpr he), by rw [← hsim]; exact hempty⟩
+  obtain ⟨K, hK⟩ := hb b hbm
+  exact ⟨K, fun e he => hK e ((hss e).mpr he)⟩
 
 /-- `blocks_order_irrelevant`: one call of `resolveAndAddAuthBlocks` on two arrangements of the same blocks (blocks
     permuted, candidates permuted inside each block), against two well-formed states with equal lookups, yields the
     same winners (up to order) and again states with equal lookups. -/
 theorem blocks_order_irrelevant (sha : ID → Bytes) (valid : Bool) {s s' : V1State} {blocks blocks' : List (List Event)}
     (hw : s.WF) (hw' : s'.WF) (hsim : s.Sim s') (heq : SetsEquiv blocks blocks')
-    (hb : BlocksEmpty s blocks)
+    (hb : BlocksSlots blocks)
     (hdist : blocks.Pairwise (fun b1 b2 => ∀ e1 ∈ b1, ∀ e2 ∈ b2, keyOf e1 ≠ keyOf e2))
     (hinj : ∀ b ∈ blocks, ∀ x ∈ b, ∀ y ∈ b, x.depth = y.depth → sha x.eventID = sha y.eventID → x = y) :
     (resolveAndAddAuthBlocks sha valid s blocks).2 ~ (resolveAndAddAuthBlocks sha valid s' blocks').2 ∧
       (resolveAndAddAuthBlocks sha valid s blocks).1.Sim (resolveAndAddAuthBlocks sha valid s' blocks').1 ∧
       (resolveAndAddAuthBlocks sha valid s blocks).1.WF ∧ (resolveAndAddAuthBlocks sha valid s' blocks').1.WF := by
   obtain ⟨r1, w1, s1⟩ := resolveAndAdd_spec sha valid hw hb
-  obtain ⟨r2, w2, s2⟩ := resolveAndAdd_spec sha valid hw' (hb.equiv hsim heq)
+  obtain ⟨r2, w2, s2⟩ := resolveAndAdd_spec sha valid hw' (hb.equiv heq)
   obtain ⟨c, hpc, hec⟩ := heq
   have hperm : blocks.filterMap (fun b => (resolveAuthBlock sha valid s b).1) ~
       blocks'.filterMap (fun b => (resolveAuthBlock sha valid s' b).1) := by
@@ -316,8 +360,8 @@ theorem blocks_order_irrelevant (sha : ID → Bytes) (valid : Bool) {s s' : V1St
     exact hR e1 (resolveAuthBlock_mem he1) e2 (resolveAuthBlock_mem he2)
   refine ⟨by rw [r1, r2]; exact hperm, ?_, w1, w2⟩
   exact s1.trans ((foldl_add_sim hsim (SameSet.of_perm hperm) (slotInj_of_pairwise hpw)).trans s2.symm)
--- `hb` (every block has one slot, empty in `s`): a block resolved earlier leaves its slot cleared; if the slot held
---   an event before (or if a block wrote a foreign slot) later blocks would see a different state than earlier ones.
+-- `hb` (the candidates of a block share one slot): a block restores the slot of its first candidate only; if it also
+--   wrote a foreign slot, later blocks would see a different state than earlier ones.
 -- `hdist`: winners of two blocks with the same slot would overwrite each other when registered, the later one winning.
 -- `hinj`: see `sortV1_unique`.  `hw`, `hw'`: see `v1Allowed_congr`.
 
